@@ -5,6 +5,7 @@ mod c13;
 mod defs;
 mod gen;
 mod parse;
+mod pieces;
 mod rng;
 mod sink;
 mod smoke;
@@ -18,6 +19,16 @@ fn run_line(state: &mut parse::RunState, request: &str) -> Option<(String, Strin
     let words: Vec<&str> = request.split(' ').filter(|w| !w.is_empty()).collect();
     match words.first().copied() {
         Some("PROC") => c13::run_request(&words).map(|a| (request.to_string(), a)),
+        Some("DECSTEP") => {
+            let args: Vec<&str> = words.iter().copied().filter(|x| !x.starts_with("ORA:")).collect();
+            let steps = parse::parse_list(args.get(1)?, parse::parse_decoding)?;
+            let text = util::unhex(args.get(2)?);
+            Some((String::new(), String::new())).map(|_| {
+                let l = c13::decstep_line(&steps, &text);
+                let mut it = l.splitn(2, " :: ");
+                (it.next().unwrap().to_string(), it.next().unwrap().to_string())
+            })
+        }
         Some("DEF") => parse::run_def(state, &words).map(|a| (request.to_string(), a)),
         Some("ENC") | Some("DEC") | Some("BPE") | Some("UNI") | Some("WP") => parse::run_encdec(state, &words),
         _ => None,
@@ -40,6 +51,7 @@ fn main() {
             let mut rng = rng::Rng::new(seed);
             let mut out = sink::Sink::new(shards);
             match prop {
+                "C03" | "C04" | "C05" | "C06" => pieces::gen(prop, &mut rng, thorough, &mut out),
                 "C08" => c08::gen(&mut rng, thorough, &mut out),
                 "C13" => c13::gen(&mut rng, thorough, &mut out),
                 "SMOKE" => smoke::gen(&mut rng, thorough, &mut out),
